@@ -9,9 +9,9 @@ import (
 	"strings"
 
 	"github.com/ontio/ontology/common"
-	scommon "github.com/ontio/ontology/core/store/common"
 	"github.com/ontio/ontology/core/payload"
 	"github.com/ontio/ontology/core/states"
+	scommon "github.com/ontio/ontology/core/store/common"
 	"github.com/ontio/ontology/core/store/leveldbstore"
 	"github.com/ontio/ontology/core/store/overlaydb"
 	ctypes "github.com/ontio/ontology/core/types"
@@ -170,26 +170,68 @@ func faultName(err error) string {
 
 var gasTable = map[string]uint64{sneovm.STORAGE_PUT_NAME: 4000}
 
-// RunOnce executes the byte code once in a fresh engine over a fresh (in-memory) state in which the
-// code itself is a deployed contract, and reports what the caller sees.
+// baseStore is the (empty, never written: no overlay is committed into it) persistent store below
+// every run's fresh overlay; creating a goleveldb instance per run would dominate the run time.
+var baseStore *leveldbstore.LevelDBStore
+
+type env struct {
+	sc    *smartcontract.SmartContract
+	ov    *overlaydb.OverlayDB
+	cache *storage.CacheDB
+}
+
+// newEnv: fresh in-memory state in which the code itself is a deployed contract (StoragePut checks
+// that), and a fresh SmartContract.
+func newEnv(code []byte) *env {
+	if baseStore == nil {
+		baseStore = leveldbstore.NewMemLevelDBStore()
+	}
+	ov := overlaydb.NewOverlayDB(baseStore)
+	cache := storage.NewCacheDB(ov)
+	dc, err := payload.NewDeployCode(code, payload.NEOVM_TYPE, "c15", "1", "a", "e", "d")
+	if err != nil {
+		panic(err)
+	}
+	cache.PutContract(dc)
+	cache.Commit()
+	sc := &smartcontract.SmartContract{
+		Config:   &smartcontract.Config{Time: 10, Height: 1 << 30, Tx: &ctypes.Transaction{}},
+		Gas:      1 << 50,
+		CacheDB:  cache,
+		GasTable: gasTable,
+	}
+	return &env{sc: sc, ov: ov, cache: cache}
+}
+
+// invokeRaw runs the code in a fresh engine and returns the live value left on top of the stack.
+func invokeRaw(code []byte) (v *vmtypes.VmValue, err error) {
+	p, msg := hx.Recover(func() {
+		e := newEnv(code)
+		engine, err2 := e.sc.NewExecuteEngine(code, ctypes.InvokeNeo)
+		if err2 != nil {
+			panic(err2)
+		}
+		res, err2 := engine.Invoke()
+		if err2 != nil {
+			err = err2
+			return
+		}
+		if res != nil {
+			v = res.(*vmtypes.VmValue)
+		}
+	})
+	if p {
+		return nil, fmt.Errorf("panic: %s", msg)
+	}
+	return v, err
+}
+
+// RunOnce executes the byte code once in a fresh engine over a fresh (in-memory) state and reports
+// what the caller sees.
 func RunOnce(code []byte) (out Outcome) {
 	p, msg := hx.Recover(func() {
-		store := leveldbstore.NewMemLevelDBStore()
-		ov := overlaydb.NewOverlayDB(store)
-		cache := storage.NewCacheDB(ov)
-		dc, err := payload.NewDeployCode(code, payload.NEOVM_TYPE, "c15", "1", "a", "e", "d")
-		if err != nil {
-			panic(err)
-		}
-		cache.PutContract(dc)
-		cache.Commit()
-		sc := &smartcontract.SmartContract{
-			Config:   &smartcontract.Config{Time: 10, Height: 1 << 30, Tx: &ctypes.Transaction{}},
-			Gas:      1 << 50,
-			CacheDB:  cache,
-			GasTable: gasTable,
-		}
-		engine, err := sc.NewExecuteEngine(code, ctypes.InvokeNeo)
+		e := newEnv(code)
+		engine, err := e.sc.NewExecuteEngine(code, ctypes.InvokeNeo)
 		if err != nil {
 			panic(err)
 		}
@@ -201,13 +243,13 @@ func RunOnce(code []byte) (out Outcome) {
 		if res != nil {
 			out.Ret = observe(res.(*vmtypes.VmValue), obsDepth)
 		}
-		for _, n := range sc.Notifications {
+		for _, n := range e.sc.Notifications {
 			out.Notes = append(out.Notes, observeNote(n.States))
 		}
-		cache.Commit()
+		e.cache.Commit()
 		addr := common.AddressFromVmCode(code)
 		prefix := append([]byte{byte(scommon.ST_STORAGE)}, addr[:]...)
-		ov.GetWriteSet().ForEach(func(key, val []byte) {
+		e.ov.GetWriteSet().ForEach(func(key, val []byte) {
 			if !bytes.HasPrefix(key, prefix) {
 				return
 			}
@@ -224,6 +266,8 @@ func RunOnce(code []byte) (out Outcome) {
 	}
 	return out
 }
+
+func jsonUnmarshal(raw []byte, v interface{}) error { return json.Unmarshal(raw, v) }
 
 // ---------------------------------------------------------------- Coq rendering of an outcome
 
